@@ -16,6 +16,7 @@ import (
 	"time"
 
 	"verif/engine"
+	"verif/harness/c12"
 	"verif/harness/hk"
 	"verif/harness/srv"
 	"verif/harness/world"
@@ -219,6 +220,28 @@ func scenarios() []*engine.Scenario {
 	return out
 }
 
+func handover() []*engine.Scenario {
+	var out []*engine.Scenario
+	for _, sc := range c12.HandoverScenarios() {
+		sc.Name = "handover-" + sc.Name
+		inner := sc.Check
+		sc.Check = func(x *vrt.Exec) (string, bool, []*engine.Finding) {
+			obs, nt, fs := inner(x)
+			var keep []*engine.Finding
+			for _, f := range fs {
+				switch {
+				case f.Sig == "lost-while-handle-open", f.Sig == "delivered-twice", strings.HasPrefix(f.Sig, "crash{"), strings.HasPrefix(f.Sig, "deadlock"):
+					f.Msg = "hand-over of a retained address from the old to the new generation: " + f.Msg
+					keep = append(keep, f)
+				}
+			}
+			return obs, nt, keep
+		}
+		out = append(out, sc)
+	}
+	return out
+}
+
 func init() {
 	hk.Register("C11", func(ctx *engine.Ctx) {
 		bound := 1
@@ -228,9 +251,15 @@ func init() {
 		for _, sc := range scenarios() {
 			engine.ExploreS(ctx, sc, engine.SConfig{Bound: bound, Shard: ctx.Shard, NShards: ctx.NShards, Deadline: ctx.Deadline})
 		}
+		// the hand-over itself at component level, where the window is a few scheduling points
+		// wide: the old generation's handle closes while the new generation's handle accepts;
+		// every connection / datagram must be handled by exactly one of them (none lost, none twice)
+		for _, sc := range handover() {
+			engine.ExploreS(ctx, sc, engine.SConfig{Bound: bound + 2, Shard: ctx.Shard, NShards: ctx.NShards, Deadline: ctx.Deadline})
+		}
 	})
 	hk.Replayers["C11"] = func(ctx *engine.Ctx, rp engine.Replay) []*engine.Finding {
-		return engine.ReplayScenario(scenarios(), rp)
+		return engine.ReplayScenario(append(scenarios(), handover()...), rp)
 	}
 }
 
